@@ -47,6 +47,8 @@ def simulate(chk, world, max_polls=40, loop_bound=14, sleep_polls=1):
     ix = events.CukeIdx(prog)
     six = sched.SIdx(prog)
     ex, M = chk.new_exec(loop_bound=loop_bound, max_paths=4000)
+    if any(s.delay for s in world.scens):
+        ex.fresh_solver = 'QF_BV'
     M.opaque_bodies |= {'ScenarioId::new'}
     execute = find_fn(prog, 'execute')
     ep = {n: int(p[1:]) - 1 for n, p in execute.debug.items() if p.startswith('_') and p[1:].isdigit() and int(p[1:]) <= len(execute.params)}
@@ -70,7 +72,15 @@ def simulate(chk, world, max_polls=40, loop_bound=14, sleep_polls=1):
         feat, rule, sid = args[rp['feature']], args[rp['rule']], args[rp['id']]
         s = by_pid.get(str(z3.simplify(M.pid(ex_, scn))))
         if s is None:
+            c_, p_ = ex_.deref(scn)
+            tgt = ex_.read_path(c_, p_)
+            nm = (tgt.name if isinstance(tgt, (Adt, Lazy)) else '') or ''
+            s = {x.name: x for x in world.scens}.get(nm.split('.')[0])
+        if s is None:
             raise Inconclusive('run_scenario on an unknown scenario')
+        fpid = str(z3.simplify(M.pid(ex_, feat)))
+        rv_ = ex_.materialize(rule)
+        rpid = str(z3.simplify(M.pid(ex_, ex_.field_of(rv_, 1, 0, 'event::Source<gherkin::Rule>')))) if z3.simplify(M.discr(ex_, rv_)).as_long() == 1 else None
         ro = ex_.materialize(retries)
         rd = z3.simplify(M.discr(ex_, ro))
         attempt = 0
@@ -88,7 +98,7 @@ def simulate(chk, world, max_polls=40, loop_bound=14, sleep_polls=1):
             st = v.d
             if st['stage'] == 0:
                 run = ex2.env.setdefault('running', [])
-                M.log(ex2, 'start', sc=s.name, attempt=attempt, running=list(run), clock=M.clock(ex2))
+                M.log(ex2, 'start', sc=s.name, attempt=attempt, running=list(run), clock=M.clock(ex2), f=fpid, r=rpid)
                 run.append(s.name)
                 v = v.set(stage=1)
                 ex2.write_path(cell, path, v)
@@ -109,7 +119,7 @@ def simulate(chk, world, max_polls=40, loop_bound=14, sleep_polls=1):
                     from checks.fail_on_skipped import poll_to_completion
                     poll_to_completion(ex2, M, co, 3)
             ex2.env['running'].remove(s.name)
-            M.log(ex2, 'finish', sc=s.name, attempt=attempt, failed=failed, retried=retried)
+            M.log(ex2, 'finish', sc=s.name, attempt=attempt, failed=failed, retried=retried, f=fpid, r=rpid, clock=M.clock(ex2))
             ex2.call_body(sc_finished, [executor, sid, feat, rule, z3.BoolVal(failed), z3.BoolVal(retried)])
             ex2.write_path(cell, path, v.set(stage=2))
             return M.poll_ready(dty, UNIT)
@@ -129,6 +139,9 @@ def simulate(chk, world, max_polls=40, loop_bound=14, sleep_polls=1):
     def count_scen(ex_, info, a, dty):
         r = ex_.materialize(a[0])
         nm = r.cell.name if isinstance(r, Ref) else None
+        if (not nm or not nm.startswith('feat')) and isinstance(r, Ref):
+            tgt = ex_.read_path(r.cell, r.path)
+            nm = tgt.name if isinstance(tgt, (Adt, Lazy)) else None
         if not nm or not nm.startswith('feat'):
             raise Inconclusive('count_scenarios on %r' % (r,))
         return bv(len([s for s in world.scens if s.feature == int(nm[4:])]))
@@ -139,6 +152,8 @@ def simulate(chk, world, max_polls=40, loop_bound=14, sleep_polls=1):
         for ri in set(s.rule for s in world.scens if s.rule is not None):
             ex_.add(z3.BitVec('rule%d.%d.len' % (ri, rule_sc), 64) == bv(len([s for s in world.scens if s.rule == ri])))
         ex_.env['sleep_polls'] = sleep_polls
+        ex_.env['time_bound_bits'] = 40
+        ex_.add(z3.ULT(z3.BitVec('delay', 64), bv(1 << 40)))
         ex_.env['map_order'] = 'insertion'
         serial, conc = [], []
         for s in world.scens:
@@ -178,9 +193,23 @@ def simulate(chk, world, max_polls=40, loop_bound=14, sleep_polls=1):
         pin = Adt('Pin<&mut coroutine>', {(None, 0): Ref(cocell, ())})
         cx = Ref(Cell(Lazy('Context', 'cx')), ())
         body = ex_.prog.poll_body(co.ty, ex_.coro_origin.get(co.ty))
+        ing = None
+        if world.parser is not None:
+            ing = make_ingester(ex_, M, prog, world, fv)
         polls, done = 0, False
         while polls < max_polls:
             polls += 1
+            if ing is not None and not ing['done']:
+                # futures::join polls the ingester first, then execute, on every poll
+                try:
+                    ri = ex_.call_body(ing['body'], [ing['pin'], cx])
+                except PathEnd as e:
+                    if e.kind == 'loopbound':
+                        return {'log': list(ex_.env.get('log', [])), 'polls': polls, 'done': False, 'spin': 'insert_features: ' + e.msg, 'hook': ex_.env.get('panic_hook')}
+                    raise
+                if ex_.branch(M.discr(ex_, ri) == bv(0)):
+                    ing['done'] = True
+                    M.log(ex_, 'ingester_done')
             M.log(ex_, 'poll_execute', n=polls)
             try:
                 r = ex_.call_body(body, [pin, cx])
@@ -189,7 +218,7 @@ def simulate(chk, world, max_polls=40, loop_bound=14, sleep_polls=1):
                     return {'log': list(ex_.env.get('log', [])), 'polls': polls, 'done': False, 'spin': e.msg, 'hook': ex_.env.get('panic_hook')}
                 raise
             if ex_.branch(M.discr(ex_, r) == bv(0)):
-                done = True
+                done = ing is None or ing['done']
                 break
         return {'log': list(ex_.env.get('log', [])), 'polls': polls, 'done': done, 'spin': None, 'hook': ex_.env.get('panic_hook', 'original'),
                 'storage': mutex_cell.v, 'M': M, 'ex': ex_}
@@ -199,11 +228,88 @@ def simulate(chk, world, max_polls=40, loop_bound=14, sleep_polls=1):
         kind, res, pc, dec = rec
         if kind == 'ok':
             res['events'] = describe_log(ex_, M, ix, res['log'])
+            # symbolic oracle: a delayed retry starts no earlier than `delay` after the failed attempt ended (model clock)
+            res['sym'] = {}
+            delay = z3.BitVec('delay', 64)
+            errs = []
+            for s_ in world.scens:
+                if not s_.delay:
+                    continue
+                st = {e[2]: e for e in res['events'] if e[0] == 'start' and e[1] == s_.name}
+                fi = {e[2]: e for e in res['events'] if e[0] == 'finish' and e[1] == s_.name}
+                for k_ in sorted(st):
+                    if k_ > 0 and (k_ - 1) in fi:
+                        ts, tf = st[k_][6], fi[k_ - 1][7]
+                        claim = z3.And(z3.UGE(ts, tf), z3.UGE(ts - tf, delay))
+                        if ex_.check(z3.Not(claim)):
+                            m_ = ex_.last_solver.model()
+                            errs.append('%s#%d started %s ticks after attempt %d ended, delay %s' % (s_.name, k_, m_.eval(ts - tf, model_completion=True), k_ - 1, m_.eval(delay, model_completion=True)))
+            res['sym']['retry-not-before-delay'] = '; '.join(errs) if errs else None
             res.pop('M', None)
             res.pop('ex', None)
         out.append((kind, res, pc))
     ex.explore(run, on_end)
     return out, ex
+
+
+def make_ingester(ex, M, prog, world, fv):
+    """the real insert_features coroutine over a lazy parser stream of concrete-shaped features"""
+    from checks import tagsets
+    insf = find_fn(prog, 'insert_features')
+    ip = {n: int(p[1:]) - 1 for n, p in insf.debug.items() if p.startswith('_') and p[1:].isdigit() and int(p[1:]) <= len(insf.params)}
+    F = prog.tables.struct_fields('gherkin::Feature')
+    R = prog.tables.struct_fields('gherkin::Rule')
+    six = sched.SIdx(prog)
+    items = []
+    for late, fi in world.parser:
+        tops = [s for s in world.scens if s.feature == fi and s.rule is None]
+        rules = sorted(set(s.rule for s in world.scens if s.feature == fi and s.rule is not None))
+
+        def scv(s):
+            return tagsets.gherkin_node(prog, 'gherkin::Scenario', s.name, [], {})
+        rv = [tagsets.gherkin_node(prog, 'gherkin::Rule', 'rule%d' % ri, [], {
+            'scenarios': Obj('vec', items=tuple(scv(s) for s in world.scens if s.feature == fi and s.rule == ri), ty='Vec<Scenario>')}) for ri in rules]
+        feat = tagsets.gherkin_node(prog, 'gherkin::Feature', 'feat%d' % fi, [], {
+            'scenarios': Obj('vec', items=tuple(scv(s) for s in tops), ty='Vec<Scenario>'), 'rules': Obj('vec', items=tuple(rv), ty='Vec<Rule>')})
+        items.append((late, Adt('Result<gherkin::Feature, parser::Error>', {(0, 0): feat}, 0)))
+    spec = {s.name: s for s in world.scens}
+
+    def hook(ex_, f, args, dty, info):
+        def pointee_name(v):
+            for _ in range(8):
+                v = ex_.materialize(v)
+                if isinstance(v, Ref):
+                    v = ex_.read_path(v.cell, v.path)
+                    continue
+                if isinstance(v, Adt) and v.name is None and (None, 0) in v.fields and isinstance(ex_.materialize(v.fields[(None, 0)]), Ref):
+                    v = v.fields[(None, 0)]
+                    continue
+                break
+            return v.name if isinstance(v, (Adt, Lazy)) else None
+        sc = spec.get((pointee_name(args[2]) or '').split('.')[0])
+        if sc is None:
+            raise Inconclusive('classifier / retry resolver called on an unknown scenario')
+        if len(args) == 3:
+            return Adt('runner::basic::ScenarioType', {}, six.Ty['Serial' if sc.ty == 'S' else 'Concurrent'])
+        if sc.budget is None:
+            return Adt('Option<RetryOptions>', {}, 0)
+        ro = Adt('runner::basic::RetryOptions', {
+            (None, six.RO['retries']): Adt('event::Retries', {(None, six.R['current']): bv(0), (None, six.R['left']): bv(sc.budget)}),
+            (None, six.RO['after']): Adt('Option<std::time::Duration>', {(1, 0): z3.BitVec('delay', 64)}, 1 if sc.delay else 0)})
+        return Adt('Option<RetryOptions>', {(1, 0): ro}, 1)
+    M.opaque_fn_hook = hook
+    M.table['Ext::count_steps'] = lambda ex_, info, a, dty: bv(1)
+    args = [None] * len(insf.params)
+    args[ip['into']] = fv
+    args[ip['features_stream']] = M.pstream(items)
+    args[ip['which_scenario']] = Lazy('F', 'which')
+    args[ip['retries']] = Ref(Cell(Lazy('dyn Fn', 'retry_fn'), name='retry_fn'), (), pid=bv(0x77))
+    args[ip['sender']] = Lazy('UnboundedSender', 'event_sender')
+    args[ip['cli']] = Lazy('runner::basic::Cli', 'cli')
+    args[ip['fail_fast']] = z3.BoolVal(world.fail_fast)
+    co = ex.call_body(insf, args)
+    cell = Cell(co, name='insert_features')
+    return {'body': ex.prog.poll_body(co.ty, ex.coro_origin.get(co.ty)), 'pin': Adt('Pin<&mut coroutine>', {(None, 0): Ref(cell, ())}), 'done': False}
 
 
 def describe_log(ex, M, ix, log):
@@ -214,9 +320,9 @@ def describe_log(ex, M, ix, log):
     for e in log:
         k = e['kind']
         if k == 'start':
-            tl.append(('start', e['sc'], e['attempt'], tuple(e['running'])))
+            tl.append(('start', e['sc'], e['attempt'], tuple(e['running']), e.get('f'), e.get('r'), e.get('clock')))
         elif k == 'finish':
-            tl.append(('finish', e['sc'], e['attempt'], e['failed'], e['retried']))
+            tl.append(('finish', e['sc'], e['attempt'], e['failed'], e['retried'], e.get('f'), e.get('r'), e.get('clock')))
         elif k == 'dispatch':
             tl.append(('dispatch', e['sc'], e['attempt'], e['left'], e['ty']))
         elif k == 'get':
@@ -279,6 +385,16 @@ def oracles(world, res):
         if any(spec[o].ty == 'S' for o in e[3]):
             bad.append('%s#%d started while serial %s running' % (e[1], e[2], [o for o in e[3] if spec[o].ty == 'S']))
     out['serial-isolation'] = '; '.join(bad) if bad else None
+    # a Serial attempt is dispatched alone: the dispatches between two `get` calls form one batch
+    batch, bad = [], []
+    for e in tl + [('get', None)]:
+        if e[0] == 'get':
+            if len(batch) > 1 and any(spec[n].ty == 'S' for n in batch):
+                bad.append('batch %s contains a serial scenario' % batch)
+            batch = []
+        elif e[0] == 'dispatch':
+            batch.append(e[1])
+    out['serial-dispatched-alone-in-its-batch'] = '; '.join(bad) if bad else None
     # C05 sequencing
     bad = []
     for n in names:
@@ -311,6 +427,20 @@ def oracles(world, res):
             if (e[3] is None) != (b is None) or (b is not None and e[3] != b - e[2]):
                 bad.append('%s#%d dispatched with left=%s, budget %s' % (e[1], e[2], e[3], b))
     out['retry-sequencing'] = '; '.join(bad) if bad else None
+    if 'sym' in res:
+        out.update(res['sym'])
+    # while a delayed retry waits, scenarios that are ready keep being dispatched
+    bad = []
+    for n in names:
+        if spec[n].delay and spec[n].ty == 'C':
+            r1 = [i for i, e in enumerate(tl) if e[0] == 'start' and e[1] == n and e[2] == 1]
+            if r1:
+                for o_ in names:
+                    if o_ != n and spec[o_].ty == 'C' and world.parser is None:
+                        so = [i for i, e in enumerate(tl) if e[0] == 'start' and e[1] == o_]
+                        if so and so[0] > r1[0] and (world.limit is None or world.limit >= 2):
+                            bad.append('%s had to wait for the delayed retry of %s' % (o_, n))
+    out['others-run-during-retry-delay'] = '; '.join(bad) if bad else None
     # C08
     if world.fail_fast and final_fail and res['done']:
         i0 = final_fail[0]
@@ -355,12 +485,17 @@ def check_framing(tl, spec):
     for e in evs[1:-1]:
         if e[0] in ('start', 'finish'):
             sp = spec[e[1]]
-            fk = (str(0x100 + sp.feature),)
+            fp, rp = str(0x100 + sp.feature), (str(0x200 + sp.rule) if sp.rule is not None else None)
+            if e[0] == 'start' and len(e) >= 7:
+                fp, rp = e[4], e[5]
+            if e[0] == 'finish' and len(e) >= 8:
+                fp, rp = e[5], e[6]
+            fk = (fp,)
             if fk not in open_f:
                 return 'scenario %s event outside its feature bracket' % e[1]
             open_f[fk] += 1
-            if sp.rule is not None:
-                rk = (str(0x100 + sp.feature), str(0x200 + sp.rule))
+            if rp is not None:
+                rk = (fp, rp)
                 if rk not in open_r:
                     return 'scenario %s event outside its rule bracket' % e[1]
                 open_r[rk] += 1
@@ -399,8 +534,11 @@ def world_script(world, res, scale=1):
     lines = ['builder max_concurrent=%s%s' % ('none' if world.limit is None else world.limit, ' fail_fast=1' if world.fail_fast else '')]
     feats = sorted(set(s.feature for s in world.scens))
     beh = []
+    late_of = dict((fi, late) for late, fi in (world.parser or []))
+    if world.parser:
+        feats = [fi for _, fi in world.parser]
     for fi in feats:
-        lines += ['feature', '| Feature: f%d' % fi]
+        lines += ['feature late=%d' % (late_of.get(fi, 0) * scale), '| Feature: f%d' % fi]
         tops = [s for s in world.scens if s.feature == fi and s.rule is None]
         rules = sorted(set(s.rule for s in world.scens if s.feature == fi and s.rule is not None))
 
